@@ -102,6 +102,20 @@ def make_cases(rng, _n):
         add(decls, "T", "T::B", adt("B", [], []), "T::B", "unit-variant", True)
         sdecls = "#[derive(Debug)] pub struct Pair(%s);" % ", ".join("pub i32" for _ in range(n))
         add(sdecls, "Pair", "Pair(%s)" % ", ".join("1" for _ in range(n)), adt("Pair", [], ["(int 1)"] * n), "Pair()", "empty-parens-on-tuple-struct", False)
+    # paths with explicit generic arguments: the pattern names an instantiation, and it must be the value's
+    gdecl = ("#[derive(Debug)] pub struct G<T> { pub x: T, pub n: i32 }\n#[derive(Debug)] pub enum GE<T> { R { w: T }, P(T), U }\n"
+             "#[derive(Debug, PartialEq)] pub struct Feet; #[derive(Debug, PartialEq)] pub struct Meters;\n#[derive(Debug)] pub struct Len<U> { pub v: i32, pub unit: std::marker::PhantomData<U> }")
+    gval, gsx = "G::<i32> { x: 1, n: 1 }", adt("G", ["x", "n"], ["(int 1)", "(int 1)"])
+    for pat, ok in (("G { x: 1, n: 1 }", True), ("G::<i32> { x: 1, n: 1 }", True), ("G::<i32> { x: 1, .. }", True), ("G::<u8> { x: 1, n: 1 }", False), ("G::<u8> { n: 1, .. }", False),
+                    ("G::<String> { n: 1, .. }", False), ("G::<i64> { x: 1, .. }", False)):
+        add(gdecl, "G<i32>", gval, gsx, pat, "generic-struct-%s" % ("same-instantiation" if ok else "other-instantiation"), ok)
+    for pat, ok in (("GE::R { w: 1 }", True), ("GE::<i32>::R { w: 1 }", True), ("GE::<u8>::R { w: 1 }", False), ("GE::<u8>::R { .. }", False)):
+        add(gdecl, "GE<i32>", "GE::<i32>::R { w: 1 }", adt("R", ["w"], ["(int 1)"]), pat, "generic-variant-%s" % ("same-instantiation" if ok else "other-instantiation"), ok)
+    for pat, ok in (("GE::P(1)", True), ("GE::<i32>::P(1)", True), ("GE::<u8>::P(1)", False), ("GE::<u8>::P(_)", False)):
+        add(gdecl, "GE<i32>", "GE::<i32>::P(1)", adt("P", [], ["(int 1)"]), pat, "generic-tuple-variant-%s" % ("same-instantiation" if ok else "other-instantiation"), ok)
+    for pat, ok in (("Len::<Meters> { v: 1, .. }", True), ("Len::<Feet> { v: 1, .. }", False), ("Len { v: 1, .. }", True)):
+        add(gdecl, "Len<Meters>", "Len::<Meters> { v: 1, unit: std::marker::PhantomData }", adt("Len", ["v", "unit"], ["(int 1)", adt("PhantomData", [], [])]), pat,
+            "phantom-parameter-%s" % ("same-instantiation" if ok else "other-instantiation"), ok)
     vdecls = "#[derive(Debug)] pub enum E { V { w: i32, h: i32 }, U }"
     add(vdecls, "E", "E::V { w: 1, h: 1 }", adt("V", ["w", "h"], ["(int 1)", "(int 1)"]), "E::V", "bare-path-on-struct-variant", False)
     add(vdecls, "E", "E::V { w: 1, h: 1 }", adt("V", ["w", "h"], ["(int 1)", "(int 1)"]), "E::V()", "empty-parens-on-struct-variant", False)
@@ -127,9 +141,9 @@ def run(ck):
                 found = True
             ck.report(key, ("a pattern that must be rejected at compile time is accepted" if accepted else "a well-formed pattern is rejected") + " (%s)" % c.kind,
                       dict(t3.describe(c), expected="accept" if c.expect_accept else "reject", rustc=c.got[2][:300]))
-        elif model_accepts != c.expect_accept and c.kind not in ("wrong-type", "wrong-variant-name", "wildcard-without-rest") and not c.kind.startswith(("bare-path-on", "empty-parens-on")):
+        elif model_accepts != c.expect_accept and c.kind not in ("wrong-type", "wrong-variant-name", "wildcard-without-rest") and not c.kind.endswith("other-instantiation") and not c.kind.startswith(("bare-path-on", "empty-parens-on")):
             ck.report("model:%s" % c.kind, "the model's destructuring judgment disagrees with the rule the check expects", dict(t3.describe(c), model=c.expect[0]), no_input=True)
-    ck.corr_record("T3 accept/reject matrix (every subset of the fields of 5 struct / struct-variant shapes x with/without `..` x {fields matched directly, first / all fields reached through an operation} and nested in Some / tuple / slice, unknown fields, wrong type / variant names, wildcard structs, tuple and variant arities 0-5): rustc's verdict vs the rule and vs the model's destructuring judgment",
+    ck.corr_record("T3 accept/reject matrix (every subset of the fields of 5 struct / struct-variant shapes x with/without `..` x {fields matched directly, first / all fields reached through an operation} and nested in Some / tuple / slice, unknown fields, wrong type / variant names, wildcard structs, tuple and variant arities 0-5, paths with explicit generic arguments naming the value's / another instantiation): rustc's verdict vs the rule and vs the model's destructuring judgment",
                    len(cases), len(cases), 0, dist,
                    samples=[dict(invocation="assert_struct!(%s)" % c.text, expected="accept" if c.expect_accept else "reject", got=c.got[0]) for c in cases[:3]],
                    exhaustive=True,
